@@ -34,12 +34,18 @@ Definition merge_cell (b l r : option N) : option (option N) :=
 Definition merge_row : collide_t := fun b l r =>
   match l, r with
   | Some x, Some y =>
-    let '(ba, bb) := match b with Some z => dec_row z | None => (None, None) end in
     let '(la, lb) := dec_row x in
     let '(ra, rb) := dec_row y in
-    match merge_cell ba la ra, merge_cell bb lb rb with
-    | Some a, Some c => Some (Some (enc_row a c))
-    | _, _ => None
+    match b with
+    | Some z =>
+      let '(ba, bb) := dec_row z in
+      match merge_cell ba la ra, merge_cell bb lb rb with
+      | Some a, Some c => Some (Some (enc_row a c))
+      | _, _ => None
+      end
+    | None =>
+      (* both sides added the row: any differing cell is a conflict *)
+      if opt_eqb la ra && opt_eqb lb rb then Some (Some x) else None
     end
   | _, _ => None
   end.
@@ -68,3 +74,26 @@ Definition stats_slow (collide : collide_t) (ld rd : dict change) : stats :=
    N.of_nat (length (slow_conflicts collide ld rd))).
 Definition stats_fast (collide : collide_t) (ld rd : dict change) : stats :=
   (0, 0, 0, N.of_nat (length (fast_conflicts collide ld rd))).
+
+(* merge_rows.go MaybeShortCircuit, evaluated before either path is chosen (and
+   identically for every table): equal sides / untouched right side leave the
+   left table; an untouched left side takes the right table wholesale, with
+   statistics from calcTableMergeStats (a plain diff left -> right). *)
+Fixpoint dict_eqb (a b : dict N) : bool :=
+  match a, b with
+  | [], [] => true
+  | (k, v) :: a', (k', v') :: b' => (k =? k') && (v =? v') && dict_eqb a' b'
+  | _, _ => false
+  end.
+
+Definition diff_stats (d : dict change) : stats :=
+  (N.of_nat (length (filter (fun e => match snd e with (None, _) => true | _ => false end) d)),
+   N.of_nat (length (filter (fun e => match snd e with (Some _, None) => true | _ => false end) d)),
+   N.of_nat (length (filter (fun e => match snd e with (Some _, Some _) => true | _ => false end) d)),
+   0).
+
+Definition short_circuit (base left right : dict N) : option (dict N * stats) :=
+  if dict_eqb left right then Some (left, (0, 0, 0, 0))
+  else if dict_eqb right base then Some (left, (0, 0, 0, 0))
+  else if dict_eqb left base then Some (right, diff_stats (diff left right))
+  else None.
